@@ -74,7 +74,9 @@ GEN = {
 GEN[("C06", "quick")] = [("basic", ["P:S"], 1, 2, 2, 0), ("shiftchord", ["P:LEFTSHIFT", "P:A", "R:LEFTSHIFT"], 3, 1, 0, 0), ("chord", ["P:LEFTCTRL", "P:K"], 2, 1, 1, 0)]
 GEN[("C06", "thorough")] = GEN[("C12", "thorough")]
 # C01 at the loop (see ALIAS): many events per notification (a loop that stops reading early leaves the releases unread), tablet events and key events in one wake-up
-GEN[("C01", "quick")] = [("basic", ["P:A", "P:S"], 1, 1, 0, 0, 20), ("basic", ["P:A", "R:A"], 2, 2, 0, 0), ("passthru", ["R:1"], 1, 1, 0, 0, NINE)]
+# (seventeen keys go down and up again in ONE arrival: whatever stops reading after 16 events has read only presses)
+SEVENTEEN_TAP = SEVENTEEN + ["R:" + k for k in _MANY[:17]]
+GEN[("C01", "quick")] = [("basic", ["P:A", "P:S"], 1, 1, 0, 0, 20), ("basic", ["P:A", "R:A"], 3, 1, 0, 0), ("passthru", ["R:1"], 1, 1, 0, 0, NINE), ("passthru", ["R:1"], 1, 0, 0, 0, SEVENTEEN_TAP)]
 GEN[("C01", "thorough")] = GEN[("C01", "quick")] + [("basic", ["P:A", "R:A"], 1, 0, 1, 1, 70), ("norep", ["P:LEFTSHIFT", "P:A"], 2, 0, 0, 0, 33), ("basic", ["P:A", "R:A"], 3, 2, 0, 0)]
 # C14 at the loop (see ALIAS): boundary repeat timings with timer expiries
 # (negative timings are left out: with a negative delay the loop asks for a time-out of 2^64 - 5 ms, i.e. never repeats; not a panic, and outside what C11 quantifies over)
@@ -152,7 +154,7 @@ def generate(res, wd, prop, tier):
     # a configuration with a very large burst (65 events in one arrival) is explored by simulation: its behaviours are long (one read per event) and
     # it is there for the size of the batches, not for the interleavings
     def big(c):
-        return len(c) > 6 and isinstance(c[6], list) and len(c[6]) > 20
+        return len(c) > 6 and isinstance(c[6], list) and len(c[6]) > 40
     runs = [gen_run(wd, i, c, 4 if not big(c) else 1, simulate=(120, 600) if big(c) else None) for i, c in enumerate(cfgs)]
     for r, c in zip(runs, cfgs):
         if big(c):
@@ -188,7 +190,7 @@ def generate(res, wd, prop, tier):
             seen.add(key)
             mine.append({"id": "%s-%d" % (r.name, len(seen)), "lname": c[0], "layout": LAYOUTS[c[0]], "sched": s, "sleep": "no", "faults": 0})
         # a very large burst is there for the size of the batches, not for where the tablet event falls among its 65 reads: an even sample of its schedules
-        if len(c) > 6 and isinstance(c[6], list) and len(c[6]) > 20 and len(mine) > 150:
+        if len(c) > 6 and isinstance(c[6], list) and len(c[6]) > 40 and len(mine) > 150:
             mine = mine[::len(mine) // 150][:150]
         cases += mine
     log("[tlc] Loop.tla: %d configurations model-checked (%d states, %d distinct), %d schedules, %.1fs" % (len(runs), gen, dist, len(cases), time.time() - t0))
